@@ -37,6 +37,22 @@ def generate(seed, tier="quick"):
     prof = V.draw_profile(sub(seed, "profile"))
     prof.special = [s for s in prof.special if s != "norepr"]
     prog = W.gen_program(rng, prof, {"prev": PREV, "n_files": (1, 3), "n_sites": (1, 4), "n_tests": (1, 3), "hand": 0.5, "idle": 0.2})
+    erng = sub(seed, "externals")
+    want_plugin = sub(seed, "driver").random() < 0.25
+    if want_plugin and erng.random() < 0.5:
+        from . import c13
+
+        f = prog["files"][0]
+        need_import = False
+        for k in range(erng.randint(1, 2)):
+            sid = f"x{k}"
+            prevx = erng.choice([None, None, '"old"', 'external("00000000aaaa*.txt")'])
+            need_import = need_import or (prevx is not None and "external" in prevx)
+            f["sites"][sid] = {"op": "eq", "place": "direct", "arg": prevx, "prev": None}
+            erng.choice(f["tests"])["events"].append({"t": "cmp", "eid": f"ex{k}", "site": sid, "vals": [c13.wrap(erng, c13.ext_value(erng))], "style": "rec"})
+        if need_import:
+            f["header"]["imports"] = "explicit"
+            f["header"].setdefault("pre", []).insert(0, "from inline_snapshot import external")
     frng = sub(seed, "flags")
     approved = list(CATS) if frng.random() < 0.5 else [c for c in CATS if frng.random() < 0.5]
     driver = "plugin" if sub(seed, "driver").random() < 0.25 else "inline"
